@@ -48,6 +48,25 @@ Definition spell_int (R n : N) : list N := spell_radix R (digits_of R n).
 
 Definition i32_max_N : N := 2147483647.
 
+(* ---- floats ---- *)
+(* exactly k decimal digits of v (leading zeros), v < 10^k *)
+Fixpoint fixed_digits (k : nat) (v : N) (acc : list N) : list N :=
+  match k with
+  | O => acc
+  | S k' => fixed_digits k' (v / 10) (digit_char (v mod 10) :: acc)
+  end.
+
+(* a decimal-fraction spelling of the dyadic rational m * 2^e (every finite
+   binary64 is one): m * 2^e = n / 10^k with n = m * 5^-e, k = -e when e < 0
+   and n = m * 2^e * 10, k = 1 otherwise; the spelling is the integer part,
+   a point, and the k fraction digits *)
+Definition dyadic_decimal (m : positive) (e : Z) : N * nat :=
+  if (0 <=? e)%Z then (Npos m * 2 ^ Z.to_N e * 10, 1%nat)
+  else (Npos m * 5 ^ Z.to_N (- e), Z.to_nat (- e)).
+Definition spell_dyadic (m : positive) (e : Z) : list N :=
+  let '(n, k) := dyadic_decimal m e in
+  dec_string (n / 10 ^ N.of_nat k) ++ 46 :: fixed_digits k (n mod 10 ^ N.of_nat k) [].
+
 (* ---- char lists ---- *)
 Inductive esc : Type := EscN | EscT | EscR | Esc0 | EscBackslash | EscQuote.
 Definition esc_letter (e : esc) : N :=
